@@ -87,7 +87,7 @@ sys.addaudithook(_audit)
 # ---------------------------------------------------------------------------------------------
 # names and contents
 
-NAME_CLASSES = ["plain", "space", "unicode", "xml", "mixed", "nfd", "prefix", "case"]
+NAME_CLASSES = ["plain", "space", "unicode", "xml", "mixed", "nfd", "prefix", "case", "hidden", "bslash"]
 
 
 def concrete_name(abstract: str, cls: str, is_file: bool) -> str:
@@ -115,6 +115,10 @@ def concrete_name(abstract: str, cls: str, is_file: bool) -> str:
         word = "clipnamestuv"
         bits = int.from_bytes(hashlib.md5(abstract.encode()).digest()[:2], "big") % (1 << len(word))
         return "".join(ch.upper() if (bits >> i) & 1 else ch for i, ch in enumerate(word)) + ext
+    if cls == "hidden":    # every name starts with a dot (hidden files and folders)
+        return "." + base + ext
+    if cls == "bslash":    # a backslash inside the name: legal on POSIX, a separator elsewhere
+        return base + "\\b" + ext
     if cls == "mixed":
         k = sum(ord(c) for c in abstract) % 4
         return concrete_name(abstract, NAME_CLASSES[k], is_file)
@@ -157,6 +161,7 @@ class World:
             "pattern_parent": "mnt/k_t.tmp/vol",
             "x_parent": "mnt/%s/vol" % concrete_name("x", name_class, True),
             "link_parent": "mnt/link/vol",      # 'link' is a symbolic link to another directory: abspath and realpath of everything differ
+            "link_root": "mnt/vol",             # the root folder itself is a symbolic link to the tree
         }[location]
         self.root = os.path.join(self.base, loc)
         self.hidden = None
@@ -165,7 +170,13 @@ class World:
             os.makedirs(self.hidden)
             os.makedirs(os.path.join(self.base, "mnt"))
             os.symlink(self.hidden, os.path.join(self.base, "mnt", "link"))
-        os.makedirs(self.root)
+        if location == "link_root":
+            self.hidden = os.path.join(self.base, "real")
+            os.makedirs(os.path.join(self.hidden, "vol"))
+            os.makedirs(os.path.join(self.base, "mnt"))
+            os.symlink(os.path.join(self.hidden, "vol"), self.root)
+        else:
+            os.makedirs(self.root)
         self.flat_dest = os.path.join(self.base, "flatout")
         self.names = {}  # abstract name -> concrete
         self.rnames = {}
@@ -302,7 +313,7 @@ class World:
             os.chdir(cwd)
         patched = self._patch_listing()
         try:
-            with freeze_time(clock or self.clock):
+            with freeze_time(clock or self.clock, tz_offset=getattr(self, "tzoff", 0)):      # tzoff: naive local time = UTC + tzoff hours
                 _AUDIT["on"] = True
                 try:
                     res = self.runner.invoke(command, args, catch_exceptions=True)
